@@ -53,7 +53,7 @@ Definition spec_heuristic_status (s : Z) : bool :=
   (s =? 200) || (s =? 203) || (s =? 204) || (s =? 206) || (s =? 300) || (s =? 301) || (s =? 308) ||
   (s =? 404) || (s =? 405) || (s =? 410) || (s =? 414) || (s =? 501).
 
-Definition spec_lifetime (status : Z) (h : headers) : Z :=
+Definition spec_lifetime_with (heuristic_ok : Z -> bool) (status : Z) (h : headers) : Z :=
   let cc := spec_cc h in
   match sd_arg (bs "max-age") cc with
   | Some arg => match spec_delta arg with Some s => sat_ns s | None => 0 end
@@ -65,7 +65,7 @@ Definition spec_lifetime (status : Z) (h : headers) : Z :=
           | _, _ => 0
           end
       | [] =>
-          if spec_heuristic_status status || sd_has (bs "public") cc then
+          if heuristic_ok status || sd_has (bs "public") cc then
             match spec_time (hget (bs "Last-Modified") h), spec_time (hget (bs "Date") h) with
             | Some lm, Some d => if lm <? d then Z.min max64 ((d - lm) / 10) else 0
             | _, _ => 0
@@ -73,6 +73,11 @@ Definition spec_lifetime (status : Z) (h : headers) : Z :=
           else 0
       end
   end.
+
+(* safety properties allow heuristics for every status RFC 9111 §4.2.2 / RFC 9110 §15.1 allow *)
+Definition spec_lifetime := spec_lifetime_with spec_heuristic_status.
+(* liveness (C09) is promised only for the statuses the cache documents as heuristically cacheable *)
+Definition doc_lifetime := spec_lifetime_with is_heuristically_cacheable.
 
 (* ---------- views of an observed history ---------- *)
 Definition hist := list (request * exchange_obs).
@@ -212,16 +217,19 @@ Definition sv_no_cache_unqualified (cc : directives) : bool :=
   | None => false
   end.
 
-Definition needs_validation (s : stored_view) (q : request) (now : Z) : bool :=
+Definition needs_validation_with (life : Z) (s : stored_view) (q : request) (now : Z) : bool :=
   let cc := spec_cc (sv_hdr s) in
   let rcc := spec_cc (q_hdr q) in
   sv_no_cache_unqualified cc ||
-  ((sv_life s <=? sv_age s now) && sd_has (bs "must-revalidate") cc) ||
+  ((life <=? sv_age s now) && sd_has (bs "must-revalidate") cc) ||
   sd_has (bs "no-cache") rcc ||
   match sd_duration (bs "max-age") rcc with
   | Some m => m <? sv_age s now
   | None => false      (* absent, or unusable and therefore ignored *)
   end.
+
+Definition needs_validation (s : stored_view) (q : request) (now : Z) : bool :=
+  needs_validation_with (sv_life s) s q now.
 
 (* C01: may the stored response be used without contacting the origin? *)
 Definition fresh_enough (s : stored_view) (q : request) (now : Z) : bool :=
